@@ -1,6 +1,7 @@
 package main
 
 import (
+	"strconv"
 	"fmt"
 	"go/token"
 	"go/types"
@@ -104,6 +105,20 @@ func runC11(c *Ctx) {
 			c.Check(n == 1, "C11.M2-varint-scratch-holds", "positive example fires", token.NoPos, "rule found the seeded two-varints-in-one-scratch example (and nothing in /repo)", "rule did not find the seeded example: it would pass vacuously")
 		}
 		c.Floor("C11.M2-varint-scratch-holds", 1)
+	}
+	// ---- M2'' the cap the Unknown decoder puts on a payload is not below what an advertisement may carry as metadata:
+	// a payload the encoder (and the advertisement's own validation) lets through must decode again
+	{
+		capS, ok1 := c.ConstString(modPath+"/"+metaPkg, "MaxMetadataSize")
+		adS, ok2 := c.ConstString(modPath+"/ingest/schema", "MaxMetadataLen")
+		capV, e1 := strconv.Atoi(capS)
+		adV, e2 := strconv.Atoi(adS)
+		if !ok1 || !ok2 || e1 != nil || e2 != nil {
+			c.Unk("C11.M2-cap-covers-advertisement-limit", "metadata.MaxMetadataSize / schema.MaxMetadataLen", token.NoPos, "constants not found")
+		} else {
+			c.Check(capV >= adV, "C11.M2-cap-covers-advertisement-limit", "metadata.MaxMetadataSize ≥ schema.MaxMetadataLen", token.NoPos, "decoder cap "+capS+" ≥ advertisement metadata limit "+adS, "the Unknown decoder refuses payloads above "+capS+" bytes although an advertisement may carry "+adS+" bytes of metadata: a payload in between encodes and is accepted into an advertisement but does not decode")
+		}
+		c.Floor("C11.M2-cap-covers-advertisement-limit", 1)
 	}
 	// ---- M10 varints are read strictly: the decoders rebuild what they consumed from the decoded values
 	// (UvarintSize(v) bytes per prefix), which is right only if the reader rejects padded encodings. go-varint's
@@ -311,6 +326,46 @@ func c11Validate(c *Ctx) {
 			retErr = c.RetX(r, 0).Op != "nil"
 		}
 		c.Check(op == ">" && retErr, "C11.M3-order-test-live", key+" › strict comparison", iff.Pos(), "error iff previous ID > current ID (equal IDs, which New/MarshalBinary can produce, are accepted)", "order test is not 'previous > current ⇒ error' (operator "+op+"): it rejects encodings the library itself produces, or accepts descending IDs")
+	}
+	if !found {
+		// the same through the slices package: error iff !slices.IsSortedFunc(protocols, f) with f(a, b) = cmp.Compare(a.ID(), b.ID())
+		// (ascending, equal IDs accepted — IsSortedFunc only rejects f(next, prev) < 0)
+		for _, cs := range c.Calls(v.SSA, Any()) {
+			if !strings.HasPrefix(cs.X.Name, "slices.IsSortedFunc[") || len(cs.X.Args) != 2 {
+				continue
+			}
+			if fx := strip(cs.X.Args[0]); fx == nil || fx.Op != "field" || fx.Name != "protocols" {
+				continue
+			}
+			cmpFn := funcValueTarget(cs.X.Args[1].V)
+			if cmpFn == nil || len(cmpFn.Params) != 2 {
+				continue
+			}
+			found = true
+			key := v.Name + " › order test"
+			okCmp, nRet := true, 0
+			for _, b := range cmpFn.Blocks {
+				ret, isRet := b.Instrs[len(b.Instrs)-1].(*ssa.Return)
+				if !isRet || len(ret.Results) != 1 {
+					continue
+				}
+				nRet++
+				m, isCmp := Match(CallLike([]string{"cmp.Compare["}, Invoke("metadata.Protocol.ID", Bind("a")), Invoke("metadata.Protocol.ID", Bind("b"))), c.RetX(ret, 0))
+				if !isCmp || strip(m["a"]).V != ssa.Value(cmpFn.Params[0]) || strip(m["b"]).V != ssa.Value(cmpFn.Params[1]) {
+					okCmp = false
+				}
+			}
+			c.Check(okCmp && nRet == 1, "C11.M3-order-test-live", key+" › previous ID is assigned in the loop", cs.In.Pos(), "every consecutive pair is compared by cmp.Compare(a.ID(), b.ID())", "the comparison function does not order protocols by ascending ID")
+			retErr := false
+			for _, b := range v.SSA.Blocks {
+				if r, ok := b.Instrs[len(b.Instrs)-1].(*ssa.Return); ok && c.RetX(r, 0).Op != "nil" {
+					if _, g := c.GuardedB(b, Is(c.E(cs.In.(*ssa.Call))), false); g {
+						retErr = true
+					}
+				}
+			}
+			c.Check(retErr, "C11.M3-order-test-live", key+" › strict comparison", cs.In.Pos(), "error iff the list is not sorted ascending (equal IDs, which New/MarshalBinary can produce, are accepted)", "Validate does not fail exactly when the IDs are not in ascending order")
+		}
 	}
 	if !found {
 		c.Bad("C11.M3-order-test-live", v.Name+" › order test", v.SSA.Pos(), "Validate does not compare consecutive protocol IDs")
@@ -539,8 +594,8 @@ func c11Fresh(c *Ctx) {
 			if !freshMap {
 				// a field of a literal built here, initialised with a map made here
 				if m.Op == "field" {
-					if fs := c.CellFields(m.Args[0]); fs[m.Name] != nil && strip(fs[m.Name]).Op == "makemap" {
-						freshMap = true
+					if fs := c.CellFields(m.Args[0]); fs[m.Name] != nil && (strip(fs[m.Name]).Op == "makemap" || (strip(fs[m.Name]).Op == "call" && strings.HasPrefix(strip(fs[m.Name]).Name, "maps.Clone["))) {
+						freshMap = true // made here, or a clone (maps.Clone) of the parent's
 					}
 				}
 			}
